@@ -133,7 +133,7 @@ package ledger
 // than the trunk - an equally high branch block never replaces the tip - and the
 // trunk height is the tip's height (C04).
 //@ func Ledger.ConfirmBlock
-//@   property C06
+//@   property C06 C02
 //@   requires two_caches: l.blockCache != l.blkHeaderCache
 //@   requires transactions_are_allocated_objects: block != nil && (forall k int :: 0 <= k && k < len(block.Transactions) ==> block.Transactions[k] <= allocTop())
 //@   local kvErr error
@@ -158,6 +158,12 @@ package ledger
 //@   at Ledger.saveBlock#2 assert [C04] stored_flag_is_the_ledgers_decision: $0 == block && $1 == batchWrite && (block.InTrunk ==> newMeta.TipBlockid == block.Blockid)
 // Every transaction of a block that joins the trunk is mapped to THAT block by this
 // confirmation: its record is (re)written in the batch, whichever block held it before.
+// ... except from a block that STAYS on the trunk (at or below the fork point - on a plain
+// extension, at or below the old tip): a transaction such a block holds is confirmed already,
+// and a second trunk block carrying it again is refused, not recorded (C02: a transaction -
+// an award, say - counts once).
+//@   at Batch.Put#3 assert [C02] a_transaction_held_by_a_block_that_stays_on_the_trunk_is_not_taken_over: $0 != nil && !(oldBlock.InTrunk && oldBlock.Height <= splitHeight)
+//@   loop 1 invariant [C02] without_a_switch_every_old_trunk_block_stays: !confirmStatus.TrunkSwitch ==> splitHeight == l.meta.TrunkHeight
 //@   loop 1 invariant [C04] transactions_are_the_callers_objects: (forall k int :: 0 <= k && k < len($range) ==> $range[k] <= old(allocTop()))
 //@   loop 1 invariant [C04] trunk_block_takes_over_its_transactions: 0 <= $i && $i <= len($range) && (block.InTrunk ==> (forall k int :: 0 <= k && k < $i ==> sel(sel(batchOp, ifacePtr(batchWrite)), xldgpb.ConfirmedTablePrefix + str($range[k].Txid)) == 1))
 //@   loop 1 invariant [C18] a_writers_block_is_the_trunk_block_that_holds_it: 0 <= $i && $i <= len($range) && (block.InTrunk ==> (forall k int :: 0 <= k && k < $i ==> sel(sel(batchOp, ifacePtr(batchWrite)), xldgpb.ConfirmedTablePrefix + str($range[k].Txid)) == 1))
